@@ -1,9 +1,11 @@
 /-
   C05 — No tokens or token metadata without client authentication and a registered grant.
   Monitor over single requests to the token / introspection / revocation / device_authorization
-  endpoints of either router.
+  endpoints of either router: the REQUEST (abstract: raw Basic header, form pairs), the registrations and flags, and the
+  OBSERVED response (status, success, error document, the client the response acted for).
 -/
 import OidcModel.Spec.C04
+import OidcModel.Model.EndpointReq
 
 namespace C05
 
@@ -37,7 +39,35 @@ structure Obs where
   status : Nat := 0
   success : Bool := false        -- tokens / active:true / revocation performed / device codes handed out
   errorDoc : Bool := false       -- a JSON document with an `error` member
+  /-- the client the successful response ACTED FOR: client of the issued tokens (client_credentials / jwt-bearer: their subject),
+      caller handed to the storage's introspection / revocation, client the device codes were stored for -/
+  actor : String := ""
   deriving Repr, Inhabited
+
+/-- the grant type a token request asks for: the first `grant_type` value (body before URL query) -/
+def grantOf (r : EPRequest) : String := r.Form.Get "grant_type"
+
+/-- the credentials a request presents -/
+structure Creds where
+  /-- the `client_assertion` parameter, as the JWT parsers read it -/
+  assertion : Option Token := none
+  /-- the secret-type credential: the Basic header (user name and password are form-urlencoded, RFC 6749 §2.3.1) takes
+      precedence over `client_id` / `client_secret` of the form; `none` = a Basic header that does not unescape -/
+  primary : Option C04.Presented := none
+  /-- the `assertion` parameter of the jwt-bearer grant -/
+  grantAssertion : Option Token := none
+  deriving Repr, Inhabited
+
+def credsOf (o : EPOracles) (r : EPRequest) : Creds :=
+  { assertion := some (o.tokenOf (r.Form.last "client_assertion")),      -- an absent parameter reads as the empty string
+    grantAssertion := some (o.tokenOf (r.Form.last "assertion")),
+    primary :=
+      match r.basic with
+      | some (u, p) =>
+        match o.unescape u, o.unescape p with
+        | .ok id, .ok sec => some { clientID := id, secret := sec }
+        | _, _ => none
+      | none => some { clientID := r.Form.last "client_id", secret := r.Form.last "client_secret" } }
 
 /-- does the presentation fit the registration of the client it names (and the way the credential is
     sent is one the provider has enabled) -/
@@ -48,55 +78,71 @@ def credentialFits (c : Cfg) (now : Int) (cl : OPClient) (p : C04.Presented) (vi
     -- (the device and introspection paths of the Provider router accept assertions regardless of it)
     (!viaPost || true)
 
-def judge (c : Cfg) (now : Int) (e : Endpoint) (p : C04.Presented) (viaPost : Bool) (o : Obs) : Option String :=
+/-- does SOME credential of the request fit the registration of client `cl`: a `client_assertion` that proves it
+    (private_key_jwt clients), or the secret-type credential -/
+def credsFit (c : Cfg) (now : Int) (cl : OPClient) (k : Creds) : Bool :=
+  (match k.assertion with
+   | some t => credentialFits c now cl { assertion := some t } false
+   | none => false) ||
+  (match k.primary with
+   | some p => credentialFits c now cl { clientID := p.clientID, secret := p.secret } false
+   | none => false)
+
+/-- why no credential of the request fits client `cl` (only the NAME of the clause; `credsFit` decides) -/
+def whyNotFit (c : Cfg) (now : Int) (cl : OPClient) (k : Creds) : String :=
+  if credsFit { c with post := true } now cl k then "client_secret_post-client-served-while-POST-is-disabled"
+  else if cl.auth != "private_key_jwt" &&
+      (match k.assertion with
+       | some t => C14.provesClient c.base.issuer c.base.jwtMaxAgeIAT c.base.jwtOffset (C04.registry c.base.clients) t now == some cl.id
+       | none => false) then "assertion-accepted-for-a-client-not-registered-for-private_key_jwt"
+  else if cl.auth == "private_key_jwt" &&
+      (match k.primary with
+       | some p => p.clientID == cl.id && p.secret == cl.secret
+       | none => false) then "secret-accepted-for-a-private_key_jwt-client"
+  else "credential-does-not-fit-registration"
+
+def judge (c : Cfg) (now : Int) (e : Endpoint) (k : Creds) (o : Obs) : Option String :=
   if o.success then
     if o.status ≥ 300 then some "success-with-error-status" else
     match e with
-    | .token "urn:ietf:params:oauth:grant-type:jwt-bearer" =>
-      -- the "client" is the assertion's issuer: the assertion must prove an identity (C14)
-      match p.assertion with
-      | some t => if (C14.provesClient c.base.issuer c.base.jwtMaxAgeIAT c.base.jwtOffset (C04.registry c.base.clients) t now).isSome then none else some "jwt-bearer:unproven-assertion"
-      | none => some "jwt-bearer:no-assertion"
-    | .token "client_credentials" =>
-      -- authentication is the storage's: known client, registered for the grant, secret equal
-      match c.base.clients.find? (·.id == p.clientID) with
-      | none => some "unknown-client"
-      | some cl =>
-        if !c.capCC then some "grant-disabled"
-        else if !cl.grants.contains "client_credentials" then some "grant-not-registered"
-        else if cl.secret != p.secret then some "wrong-secret" else none
     | .token g =>
-      let cid := match p.assertion with
-        | some t => (C14.provesClient c.base.issuer c.base.jwtMaxAgeIAT c.base.jwtOffset (C04.registry c.base.clients) t now).getD ""
-        | none => p.clientID
-      match c.base.clients.find? (·.id == cid) with
+      if g == "urn:ietf:params:oauth:grant-type:jwt-bearer" then
+        -- the "client" is the assertion's issuer: the assertion must prove that identity (C14)
+        match k.grantAssertion with
+        | some t =>
+          match C14.provesClient c.base.issuer c.base.jwtMaxAgeIAT c.base.jwtOffset (C04.registry c.base.clients) t now with
+          | some iss => if iss == o.actor then none else some "jwt-bearer:tokens-for-another-issuer"
+          | none => some "jwt-bearer:unproven-assertion"
+        | none => some "jwt-bearer:no-assertion"
+      else
+      match c.base.clients.find? (·.id == o.actor) with
       | none => some "unknown-client"
       | some cl =>
-        if !credentialFits c now cl p viaPost then some "credential-does-not-fit-registration"
+        if g == "client_credentials" then
+          -- authentication is the storage's: known client, registered for the grant, secret equal
+          if !c.capCC then some "grant-disabled"
+          else if !cl.grants.contains "client_credentials" then some "grant-not-registered"
+          else match k.primary with
+            | some p => if p.clientID != cl.id then some "credential-names-another-client"
+                        else if cl.secret != p.secret then some "wrong-secret" else none
+            | none => some "malformed-credential"
+        else if !credsFit c now cl k then some (whyNotFit c now cl k)
         else if !grantEnabled c g then some "grant-disabled"
         else if !cl.grants.contains g then some "grant-not-registered"
         else none
     | .introspect =>
       -- introspection needs an AUTHENTICATED caller (a public client has nothing to authenticate with)
-      let cid := match p.assertion with
-        | some t => (C14.provesClient c.base.issuer c.base.jwtMaxAgeIAT c.base.jwtOffset (C04.registry c.base.clients) t now).getD ""
-        | none => p.clientID
-      match c.base.clients.find? (·.id == cid) with
+      match c.base.clients.find? (·.id == o.actor) with
       | none => some "unknown-client"
       | some cl => if cl.auth == "none" then some "unauthenticated-introspection"
-                   else if !credentialFits c now cl p viaPost then some "credential-does-not-fit-registration" else none
+                   else if !credsFit c now cl k then some (whyNotFit c now cl k) else none
     | .revoke =>
-      let cid := match p.assertion with
-        | some t => (C14.provesClient c.base.issuer c.base.jwtMaxAgeIAT c.base.jwtOffset (C04.registry c.base.clients) t now).getD ""
-        | none => p.clientID
-      match c.base.clients.find? (·.id == cid) with
+      match c.base.clients.find? (·.id == o.actor) with
       | none => some "unknown-client"
-      | some cl => if !credentialFits c now cl p viaPost then some "credential-does-not-fit-registration" else none
+      | some cl => if !credsFit c now cl k then some (whyNotFit c now cl k) else none
     | .deviceAuthorization =>
-      let cid := match p.assertion with
-        | some t => (C14.provesClient c.base.issuer c.base.jwtMaxAgeIAT c.base.jwtOffset (C04.registry c.base.clients) t now).getD ""
-        | none => p.clientID
-      match c.base.clients.find? (·.id == cid) with
+      -- a known client registered for the device grant; authentication is not demanded here (as stated)
+      match c.base.clients.find? (·.id == o.actor) with
       | none => some "unknown-client"
       | some cl => if !cl.grants.contains "urn:ietf:params:oauth:grant-type:device_code" then some "device-grant-not-registered"
                    else if !c.capDevice then some "grant-disabled" else none
